@@ -11,63 +11,63 @@ CLAIMED = {
     "C26": {
         "level": "exploration",
         "technique": "deterministic simulation: seeded baton-passing thread scheduler (sys.monitoring INSTRUCTION pre-emption) + Wing-Gong linearizability check vs reference LRU model",
-        "text": "Seeded search over sequential histories (full method set, copies and pickles carried forward) compared step by step with a reference LRU model, and over thread schedules: 2-3 simulated threads on one cache, pre-empted at bytecode-instruction boundaries inside every LRUCache method, each recorded history checked for linearizability, exceptions, deadlock and capacity. Sampling, not enumeration: a clean batch is evidence, not proof.",
+        "text": "Seeded search over sequential histories (full method set, copies and pickles carried forward) compared step by step with a reference LRU model, and over thread schedules: 2-3 simulated threads on one cache, pre-empted at bytecode-instruction boundaries inside every LRUCache method, each recorded history checked for linearizability, exceptions, deadlock and capacity. Sequential histories include stores of the identical object, unhashable keys (plain and equal to a key in use: TypeError, cache untouched) and a live iterator while the cache is read. Sampling, not enumeration: a clean batch is evidence, not proof.",
         "note": "Trusted: the reference LRU model and linearizability checker in sim/models.py; CPython GIL atomicity of single bytecode instructions and of C-level dict/deque calls; SimLock has the semantics of threading.Lock. Free-threaded builds are not modelled.",
         "design": "DESIGN.md §4 C26, §3.3",
     },
     "C36": {
         "level": "fault_enumeration",
         "technique": "deterministic simulation: virtual-time asyncio loop (seeded ready-queue choice), fault enumeration of cancel / early-close / data-exception positions, CPython asyncgen hooks as oracle",
-        "text": "Per sampled async template set, every position of three fault kinds measured on its clean run is injected under a simulated event loop (thorough: all positions; quick: a seeded sample): consumer aclose() after k chunks, cancellation of the render task after its k-th loop step with other tasks interleaved from the seed, the k-th data event raising (Exception / BaseException), each through the async and the sync API. When the render's task finishes no template async generator may be unfinished, none may reach the GC finalizer hook, and no never-awaited/unraisable/loop-exception report may appear. Workloads are sampled, positions within a workload are enumerated.",
-        "note": "Trusted: CPython's asyncgen firstiter/finalizer hooks and ag_frame as the ground truth of 'closed'; SimLoop (BaseEventLoop subclass, real Tasks) schedules faithfully; template generators are recognised by co_filename '<template>'. Data and filter async generators are outside the property's list and only counted.",
+        "text": "Per sampled async template set, every position of three fault kinds measured on its clean run is injected under a simulated event loop (thorough: all positions; quick: a seeded sample): consumer aclose() after k chunks, cancellation of the render task after its k-th loop step with other tasks interleaved from the seed, the k-th data event raising (Exception / BaseException), each through the async and the sync API (including a sync consumer that stops after k chunks), on Environment / NativeEnvironment / SandboxedEnvironment, optionally with a peer render task of the same template on the same environment. When a render's task finishes no async generator it started that belongs to compiled template code or to the engine itself (jinja2 modules other than filters.py) may be unfinished, none may reach the GC finalizer hook, and no never-awaited/unraisable/loop-exception report may appear. Workloads are sampled, positions within a workload are enumerated.",
+        "note": "Trusted: CPython's asyncgen firstiter/finalizer hooks and ag_frame as the ground truth of 'closed'; SimLoop (BaseEventLoop subclass, real Tasks) schedules faithfully; template generators are recognised by co_filename '<template>', engine generators by living in a jinja2 module other than filters.py; generators are attributed to the task that first iterated them. Data and filter async generators (map, select) are outside the property's list and only counted. A loop closed without shutdown_asyncgens() and loops the engine never closes are inspected too.",
         "design": "DESIGN.md §4 C36, §3.4",
     },
     "C37": {
         "level": "exploration",
         "technique": "deterministic simulation: virtual-time asyncio loop, seeded interleavings of 2-4 render tasks on one environment + peer cancel/exception faults, differential oracle vs isolated render",
         "text": "Seeded search over interleavings: 2-4 real asyncio tasks render generated templates on one shared async environment under a simulated event loop whose every ready-queue choice and gate delay (0..3600 virtual seconds) comes from the seed; some runs cancel a peer at its k-th step or make a peer's k-th data event raise. Every surviving task's output must equal the same render done alone on a fresh environment of the same configuration. Sampling of schedules and programs, not enumeration.",
-        "note": "Trusted: the isolated render of the same code as reference (differential, so a bug that shows identically alone and concurrently is invisible); SimLoop schedules real Tasks faithfully. Known finding KF-C29-1 (state in cached import modules) is tolerated only for generator-tagged programs and only if a fresh environment per task removes the mismatch.",
-        "design": "DESIGN.md §4 C37, §3.4",
+        "note": "Trusted: the isolated render of the same code as reference (differential, so a bug that shows identically alone and concurrently is invisible); SimLoop schedules real Tasks faithfully. Known findings KF-C29-1 (state in cached import modules) and KF-C37-1 (the eval context of a cached import module is shared by all tasks; an autoescape block inside a module macro switches it while it runs) are tolerated only for generator-tagged programs and only if a fresh environment per task removes the mismatch.",
+        "design": "DESIGN.md §4 C37, §3.4, §9.9",
     },
     "C38": {
         "level": "fault_enumeration",
         "technique": "deterministic simulation with fault injection at the data seam: Probe data objects raise at the k-th data event, every k per sampled history; exception identity + differential recovery renders",
-        "text": "Per sampled template set and render history (3-6 renders in one environment; sync/async, plain/sandboxed, all rendering entry points) the clean run counts the data events of every render; then every event position of every render (thorough) or a seeded sample (quick) is made to raise a private Exception / BaseException. The faulted render must raise that very object; every clean render before, between and after faults must equal its isolated reference. Histories are sampled; fault positions within a history are enumerated.",
+        "text": "Per sampled template set and render history (3-6 renders in one environment; sync/async, plain/sandboxed, all rendering entry points) the clean run counts the data events of every render; then every event position of every render (thorough) or a seeded sample (quick) is made to raise a private Exception / BaseException / ValueError- RuntimeError- OSError- ArithmeticError-subclass / an exception class that forbids attribute assignment. Environments: plain, sandboxed, native; optionally the debug and i18n (newstyle, translating catalog) extensions. One faulted history in 24 is a soak: the faulted render 120 times, then every entry point clean. The faulted render must raise that very object; every clean render before, between and after faults must equal its isolated reference. Histories are sampled; fault positions within a history are enumerated.",
         "note": "Trusted: the isolated render of the same code as reference for recovery renders; the Probe classes define what a data event is. One narrow exemption: a fault raised inside the documented `sequence` capability test (detected on the Python stack) may be swallowed.",
         "design": "DESIGN.md §4 C38",
     },
     "C29": {
         "level": "exploration",
         "technique": "deterministic simulation: render histories with deep input snapshots + seeded baton-passing thread schedules (sys.monitoring LINE/INSTRUCTION pre-emption) on one shared environment, differential oracle vs isolated render",
-        "text": "Seeded search over (a) render histories on one environment (3-10 renders through every entry point, small template caches so eviction/reload happen, sync and async) with a deep structural snapshot of data, environment globals and template globals after every render, and (b) thread schedules: 2-4 simulated threads rendering on the same environment and the same data objects, pre-empted at source-line boundaries of jinja2/template code (placement biased to cache, loader, module and runtime code) and instruction boundaries in LRUCache, with hot, warm and cold template caches. Every render must equal its isolated reference and leave inputs unchanged. Sampling, not enumeration; the property text's 8-16 free-running threads are replaced by 2-4 threads with chosen pre-emptions, which reach the same pairwise races reproducibly.",
-        "note": "Trusted: the isolated render of the same code as reference (differential); GIL atomicity below source-line / bytecode granularity; SimLock = threading.Lock semantics; purity of the generated data callables. Known finding KF-C29-1 (state in cached import modules) is tolerated only for generator-tagged programs and only if a fresh Environment per render removes the mismatch.",
-        "design": "DESIGN.md §4 C29, §3.3",
+        "text": "Seeded search over (a) render histories on one environment (3-10 renders through every entry point, small template caches so eviction/reload happen, sync and async) with a deep structural snapshot of data, environment globals and template globals after every render, and (b) thread schedules: 2-4 simulated threads rendering on the same environment and the same data objects, pre-empted at source-line boundaries of jinja2/template code (placement biased to cache, loader, module and runtime code) and instruction boundaries in LRUCache, with hot, warm and cold template caches; in a third of the schedule runs one thread's k-th data call raises (the others must be unaffected, nobody may be left waiting: threading.Lock/RLock/Event created by the code under test are simulator primitives, so a wait nobody can satisfy is a detected deadlock). Environment / NativeEnvironment / SandboxedEnvironment. Every render must equal its isolated reference and leave inputs unchanged; a run that does not return within its time limit is the violation no-termination. Sampling, not enumeration; the property text's 8-16 free-running threads are replaced by 2-4 threads with chosen pre-emptions, which reach the same pairwise races reproducibly.",
+        "note": "Trusted: the isolated render of the same code as reference (differential); GIL atomicity below source-line / bytecode granularity; SimLock = threading.Lock semantics; purity of the generated data callables. References come from pristine interpreters for one run in 64 and for every run after the content of a process-global container of jinja2 was seen to differ from the worker's first reading (a trigger, never compared with an expected value). Known findings KF-C29-1 (state in cached import modules) and KF-C37-1 (shared eval context of a cached import module, thread interleaving only) are tolerated only for generator-tagged programs and only if a fresh Environment per render removes the mismatch.",
+        "design": "DESIGN.md §4 C29, §3.3, §9.9, §9.10",
     },
     "C25": {
         "level": "exploration",
         "technique": "deterministic simulation: real Environment over simulated loader storage, file system and clock (forward / held / backwards), seeded operation histories with injected I/O errors, checked against an executable reference cache model; plus reader threads and an external writer interleaved by the seeded baton scheduler (source lines, LRUCache instructions, syscalls) with a strict check after quiescence",
-        "text": "Seeded histories (get, select, modify, delete, add, loader swap, clock tick forward/held/backwards, gc) drive a real Environment whose loaders read a simulated store / file system stamped by a simulated clock; each operation's observable result (which source version rendered, TemplateNotFound, cache length) is compared with a reference model of the cache for cache sizes 0/1/2/3/-1/400, both reload settings and four loader kinds; a separate configuration arms an EIO on one operation's open/getmtime and checks strictly again afterwards. One run in four is concurrent: 1-2 reader threads and an external writer (modify/delete/add) are interleaved by seeded pre-emptions inside get_template/_load_template/loader/LRUCache code and at simulated syscalls; in-flight operations may see any version current inside their window, and after quiescence every lookup must again serve the current source, be repeatable and respect the capacity. Sampling of histories and schedules, not enumeration.",
+        "text": "Seeded histories (get, select, modify, delete, add, loader swap, clock tick forward/held/backwards, gc) drive a real Environment whose loaders read a simulated store / file system stamped by a simulated clock; each operation's observable result (which source version rendered, TemplateNotFound, cache length) is compared with a reference model of the cache for cache sizes 0/1/2/3/-1/400, both reload settings and eight loader kinds (DictLoader, FunctionLoader with/without up-to-date callback, FileSystemLoader with one/two directories, ChoiceLoader of dict and of file-system loaders, PrefixLoader; rebinding loader.mapping; an in-memory bytecode cache in a third of the runs); a separate configuration arms an EIO on one operation's open/getmtime (or a storage outage of a FunctionLoader: load and up-to-date callback raise) and checks strictly again afterwards. One run in four is concurrent: 1-2 reader threads and an external writer (modify/delete/add) are interleaved by seeded pre-emptions inside get_template/_load_template/loader/LRUCache code and at simulated syscalls; in-flight operations may see any version current inside their window, and after quiescence every lookup must again serve the current source, be repeatable and respect the capacity. Sampling of histories and schedules, not enumeration.",
         "note": "Trusted: the reference model in props/c25.py (about 60 lines) as the statement of documented cache behaviour; it is compared only through observables, never private fields. Held-clock rewrites accept either version until the next change. Multi-directory search paths and ChoiceLoader shadowing are outside the property's quantifier and not covered.",
         "design": "DESIGN.md §4 C25, §3.5",
     },
     "C27": {
         "level": "fault_enumeration",
         "technique": "deterministic simulation with fault injection: in-memory file system / memcached, 2-3 simulated processes interleaved at syscall events, enumeration of crash points, power-loss truncations, I/O errors and entry damage per sampled history; differential oracle vs cache-less compile",
-        "text": "Per sampled history of loads, source changes, clears, restarts and syncs by 2-3 simulated processes sharing one cache directory (or memcached), the clean run numbers every syscall event; then every crash point (before/after each event), power loss after each event (per-file prefix truncation, renames persisted or undone), every error kind at every event, every truncation offset of every stored entry, foreign-magic / other-version / garbage / empty / stale / foreign-code entries and memcached client faults are injected (thorough: all positions; quick: a seeded sample with every kind represented), plus two-fault combinations. Every load must render exactly what a cache-less environment of the same configuration renders and must not raise, except the injected error object itself in the load it was injected into. Histories are sampled; fault positions within a history are enumerated.",
+        "text": "Per sampled history of loads, source changes, clears, restarts and syncs by 2-3 simulated processes sharing one cache directory (or memcached), the clean run numbers every syscall event; then every crash point (before/after each event), power loss after each event (per-file prefix truncation, renames persisted or undone), every error kind at every event, every truncation offset of every stored entry, foreign-magic / other-version / garbage / empty / stale / foreign-code entries and memcached client faults are injected (thorough: all positions; quick: a seeded sample with every kind represented), plus two-fault combinations. Rounds include two threads of ONE process sharing one Environment and cache object with a source edit landing mid-load (source-line pre-emption in bccache.py / loaders.py). Configurations: identical, one compile-relevant option differing (KF-C27-1 classifier), or only run-time options differing (undefined type, same-named filter/test/global, presence of a global) with no tolerance. Loaders: DictLoader, FunctionLoader returning fresh strings, ChoiceLoader with a shadowed copy. Foreign-interpreter headers are computed by the code under test re-executed under another sys.version_info. Every load must render exactly what a cache-less environment of the same configuration renders and must not raise, except the injected error object itself in the load it was injected into. Histories are sampled; fault positions within a history are enumerated.",
         "note": "Trusted: SimFS's POSIX model (atomic rename, unlink semantics, no-fsync durability), process death = no further file-system call; the cache-less compile of the same code as reference. Known finding KF-C27-1 (configuration not part of key/checksum) is matched only by a structured classifier: the load read an entry written under another configuration and the observed behaviour equals executing that configuration's code in the reader environment; same-config runs get no tolerance.",
         "design": "DESIGN.md §4 C27, §3.5",
     },
     "C13": {
         "level": "exploration",
         "technique": "deterministic simulation: seeded histories over differently configured environments / overlays / Template(...) with shrunken lexer cache, executed by 1-3 baton-passed threads (sys.monitoring LINE pre-emption in environment.py, utils.py, lexer construction), differential oracle vs isolated render",
-        "text": "Decides ONLY the second sentence of C13 (creating and using such environments never changes how previously configured environments render). Seeded histories of environment creation, overlays (same/changed options, with/without cache_size), Template(...) construction (more configurations than the spontaneous-environment cache holds), from_string/get_template renders through a shared loader and clear_caches, with the lexer cache shrunk to 1-3 entries so eviction and re-creation happen, run by 1-3 simulated threads with seeded pre-emptions inside the shared-cache code. Every render must equal the isolated render of the same (configuration, source, data). Sampling, not enumeration.",
+        "text": "Decides ONLY the second sentence of C13 (creating and using such environments never changes how previously configured environments render). Seeded histories of environment creation, overlays (same/changed options, with/without cache_size), Template(...) construction (more configurations than the spontaneous-environment cache holds), from_string/get_template renders through a shared loader and clear_caches, with the lexer cache shrunk to 1-3 entries so eviction and re-creation happen, run by 1-3 simulated threads with seeded pre-emptions inside the shared-cache code. Every render must equal the isolated render of the same (configuration, source, data) - for Template(...) that is Environment(**options).from_string without a loader, so the constructor path is compared with the environment path. A quarter of the runs also pre-empt inside tokenising (the cached Lexer is shared). Sampling, not enumeration.",
         "note": "NOT decided: the first sentence (equivalent delimiter sets / line statements / overlays render the same text) - a pure metamorphic property of the lexer with no schedule or history in it, not applicable to this technique. Trusted: isolated render of the same code as reference; GIL atomicity below source-line granularity; the lexer-cache capacity knob pokes jinja2.lexer._lexer_cache.capacity (skipped if absent).",
         "design": "DESIGN.md §4 C13, §3.3",
     },
     "C30": {
         "level": "exploration",
-        "technique": "deterministic simulation of the two nondeterminism sources the property names: fresh interpreters with seeded PYTHONHASHSEED values and seeded per-process compilation histories (orders, cache clears, unrelated compilations); digest comparison of generated source",
-        "text": "Per seeded corpus of generated template sets (biased to the code-generator sites that turn a set of names into emitted text), 3 (quick) or 6 (thorough) fresh interpreters are started with PYTHONHASHSEED values drawn from the seed; each compiles the corpus in a drawn order, clears caches, compiles unrelated templates, and compiles the corpus again in another order. All digests of Environment.compile(raw=True) for one (template, configuration) must agree; on a mismatch both sources are diffed into the replay file. Sampling of programs and hash seeds.",
+        "technique": "deterministic simulation of the nondeterminism sources the property names: fresh interpreters with seeded PYTHONHASHSEED values and seeded per-process compilation histories (orders, cache clears, unrelated and failing compilations), plus overlapping compilations on baton-passed threads; digest comparison of generated source",
+        "text": "Per seeded corpus of generated template sets (biased to the code-generator sites that turn a set of names into emitted text), 3 (quick) or 6 (thorough) fresh interpreters are started with PYTHONHASHSEED values drawn from the seed; each compiles the corpus in a drawn order, clears caches, compiles unrelated templates, and compiles the corpus again in another order. Interpreters other than the base one also run disturbances in the same environment before a compilation (expression / template compilations that fail half-way, meta introspection, lexing). All digests of Environment.compile(raw=True) for one (template, configuration) must agree; on a mismatch both sources are diffed into the replay file. Per corpus, 12 (quick) / 60 (thorough) further runs let 2-3 simulated threads compile templates at the same time (own or shared environment, source-line pre-emption through the whole pipeline); every source must equal the one obtained alone. Sampling of programs, hash seeds and schedules.",
         "note": "Trusted: nothing but CPython; hash-seed dependence is only visible if one of the sampled seeds orders the relevant set differently (3-6 seeds per corpus, hundreds of corpora per run) and if the generator reaches the site (per-site coverage counters are in the evidence).",
         "design": "DESIGN.md §4 C30",
     },
